@@ -282,7 +282,26 @@ func c06WalkerShape(c *kit.Ctx, m *storeModel, r2 *kit.Rule, w *walker, upf *kit
 		return
 	}
 	if v, ok := info.Types[upCall.Args[1]]; !ok || v.Value == nil || v.Value.Kind() != constant.Bool {
-		oUp.Undecided("includeDeleted argument `%s` is not a constant", f.Str(upCall.Args[1]))
+		// an argument that depends on the walker's own parameters changes along the
+		// walk (the first hop passes other values than later hops): for some
+		// position it differs from the required constant
+		dep := false
+		ast.Inspect(upCall.Args[1], func(n ast.Node) bool {
+			if id, ok := n.(*ast.Ident); ok {
+				for _, p := range f.Params() {
+					if kit.ObjOf(info, id) == types.Object(p) {
+						dep = true
+					}
+				}
+			}
+			return true
+		})
+		if dep {
+			oUp.Violation("%s walker passes includeDeleted=`%s`, which depends on the position in the walk instead of being the constant %v: on some hops %s", kind, f.Str(upCall.Args[1]), wantDel,
+				map[bool]string{true: "a deletion is not announced above a tombstoned edge", false: "node points are announced above deleted edges"}[wantDel])
+		} else {
+			oUp.Undecided("includeDeleted argument `%s` is not a constant", f.Str(upCall.Args[1]))
+		}
 	} else if constant.BoolVal(v.Value) != wantDel {
 		oUp.Violation("%s walker calls the parent lookup with includeDeleted=%v: %s", kind, constant.BoolVal(v.Value),
 			map[bool]string{true: "node points would be announced above deleted edges", false: "a deletion would not be announced above the deleted edge"}[constant.BoolVal(v.Value)])
